@@ -615,7 +615,7 @@ class SeqAlg:
                 if c.elt[0] != "tuple" or len(c.elt[1]) != 2:
                     raise Unsupported("compress")
                 return Comp(c.gens, c.conds + (self.se.cond(c.elt[1][1]),), c.elt[1][0])
-            if fn == "product" and len(node.args) == 2 and self._is_itertools(fn):
+            if self._itertools_name(fn) == "product" and len(node.args) == 2 and not node.keywords:
                 a, b = self.as_comp(node.args[0], env), self.as_comp(node.args[1], env)
                 return Comp(a.gens + b.gens, a.conds + b.conds, ("tuple", (a.elt, b.elt)))
         if isinstance(node, ast.Call) and isinstance(node.func, ast.Attribute) and not node.args and node.func.attr in ("values", "items", "keys"):
@@ -749,6 +749,14 @@ class SeqAlg:
                 key = self._key(v.func.value)
                 o = self.obj(env.get(key))
                 z = v.args[0]
+                if o is not None and o.kind == "dict" and o.comp is None and isinstance(z, ast.Call):
+                    # D.update(enumerate(X, k)) / D.update(zip(count(k), X)) on a dict that is still empty is dict(...) of the same
+                    fake = ast.copy_location(ast.Call(func=ast.Name(id="dict", ctx=ast.Load()), args=[z], keywords=[]), v)
+                    ast.fix_missing_locations(fake)
+                    ref = self._dict_zip_count(fake, env)
+                    if ref is not None:
+                        env[key] = ref
+                        return
                 if o is not None and o.kind == "dict" and o.comp is None and isinstance(z, ast.Call) and isinstance(z.func, ast.Name) and z.func.id == "zip" and len(z.args) == 2 and not z.keywords:
                     rng = self.expr(z.args[0], env) if not isinstance(z.args[0], ast.Call) else None
                     ro = self.obj(rng) if rng is not None else None
@@ -810,6 +818,15 @@ class SeqAlg:
         if isinstance(s, ast.For):
             self.loop(s, env, conds)
             return
+        if isinstance(s, ast.While):
+            # a counted `while` (`i = a; while i < N: ...; i += 1`, the increment first, last or in between) is the `for` over range(a, N) the
+            # term evaluator makes of it
+            from .symeval import _counter_while
+
+            cf = _counter_while(s, self.f.node, env)
+            if cf is not None:
+                self.loop(cf, env, conds)
+                return
         if isinstance(s, ast.While) and not self.loop_stack and not conds:
             self.peel(s, env)
             return
@@ -927,9 +944,34 @@ class SeqAlg:
             out.append(st)
         return out
 
+    def _whiles_to_fors(self, stmts):
+        """Counted `while` loops nested in a scan loop, as the `for` loops they stand for (see stmt)."""
+        from .symeval import _counter_while
+
+        out, changed = [], False
+        for st in stmts:
+            if isinstance(st, ast.While):
+                cf = _counter_while(st, self.f.node, {})
+                if cf is not None:
+                    st, changed = cf, True
+            if isinstance(st, (ast.For, ast.If)):
+                nb, c1 = self._whiles_to_fors(st.body)
+                no, c2 = self._whiles_to_fors(st.orelse)
+                if c1 or c2:
+                    st2 = ast.For(target=st.target, iter=st.iter, body=nb, orelse=no, type_comment=None) if isinstance(st, ast.For) else ast.If(test=st.test, body=nb, orelse=no)
+                    st = ast.copy_location(st2, st)
+                    ast.fix_missing_locations(st)
+                    changed = True
+            out.append(st)
+        return out, changed
+
     def loop(self, s: ast.For, env, conds):
         if s.orelse:
             raise Unsupported("for-else")
+        wb, wch = self._whiles_to_fors(s.body)
+        if wch:
+            s = ast.copy_location(ast.For(target=s.target, iter=s.iter, body=wb, orelse=[], type_comment=None), s)
+            ast.fix_missing_locations(s)
         nb = self._guards_to_ifs(s.body)
         if len(nb) != len(s.body) or any(a is not b for a, b in zip(nb, s.body)):
             s2 = ast.copy_location(ast.For(target=s.target, iter=s.iter, body=nb or [ast.copy_location(ast.Pass(), s)], orelse=[], type_comment=None), s)
